@@ -254,6 +254,16 @@ func (x *Exec) exprs(st *State, fr *Frame, e ast.Expr) []Term {
 		return one(x.composite(st, fr, e))
 	case *ast.TypeAssertExpr:
 		v := x.expr(st, fr, e.X)
+		if ce, ok := ast.Unparen(e.X).(*ast.CallExpr); ok {
+			if f, _ := x.staticCallee(ce.Fun); f != nil && f.FullName() == "(*sync.Pool).Get" {
+				// trusted: the pool holds only values of the asserted type
+				to := x.info.TypeOf(e.Type)
+				if x.sortOf(to) == "Ref" {
+					v.Ty = to
+					return one(v)
+				}
+			}
+		}
 		tv, okT := x.typeAssert(st, v, x.info.TypeOf(e.Type), e)
 		if tu, ok := x.info.TypeOf(e).(*types.Tuple); ok && tu.Len() == 2 {
 			return []Term{tv, okT}
@@ -463,7 +473,7 @@ func (x *Exec) loadField(st *State, ref Term, n *types.Named, f *types.Var) Term
 	m := x.heapMap(st, name, fs)
 	t := tSelect(m, ref, fs)
 	t.Ty = f.Type()
-	if fs == "Ref" && x.dry == 0 {
+	if fs == "Ref" && x.dry == 0 && !strings.Contains(t.S, "?") {
 		// heap well-formedness: references stored in fields are allocated (or nil)
 		key := "wf:" + t.S
 		if !x.wfSeen[key] {
@@ -636,6 +646,10 @@ func (x *Exec) storeField(st *State, fr *Frame, l *ast.SelectorExpr, v Term) {
 // in a variable, the variable is updated functionally.
 func (x *Exec) storePath(st *State, fr *Frame, n ast.Node, baseExpr ast.Expr, b Term, bt types.Type, path []int, v Term) {
 	named, s, isPtr := structBehind(bt)
+	if named != nil && qualName(named) == "sync.Pool" {
+		x.trust("sync.Pool.New is only used by the pool itself (Get returns a new value or a pooled one)")
+		return
+	}
 	if s == nil {
 		x.unsupported(n, "field store into %s", bt)
 		return
